@@ -84,6 +84,15 @@ type vIdxJSONC10 struct {
 	Packs []vIdxPackJSONC10 `json:"packs"`
 }
 
+func vSortedKeysC10[V any](m map[string]V) []string {
+	ks := make([]string, 0, len(m))
+	for k := range m {
+		ks = append(ks, k)
+	}
+	sort.Strings(ks)
+	return ks
+}
+
 // vKeyC10 returns the master key of the repository of e.
 func vKeyC10(e *vEnv) (*crypto.Key, error) {
 	var k *crypto.Key
